@@ -27,6 +27,7 @@ structure Obj where
   mem : Nat           -- root only: origData
   own : Nat           -- ghost
   kids : List Nat     -- ghost (root only)
+  puts : Nat := 0     -- ghost (root only): how often pool.Put(origData) ran for this root
 deriving Repr, DecidableEq
 
 structure Mem where
@@ -99,7 +100,7 @@ def newBuffer (st : St) (m n : Nat) : St × Val :=
     if below st x.bytes.length then (st, .sl x.bytes n)
     else
       let id := st.objs.length
-      ({ st with objs := st.objs ++ [⟨1, 0, n, id, m, 1, []⟩] }, .buf id)
+      ({ st with objs := st.objs ++ [⟨1, 0, n, id, m, 1, [], 0⟩] }, .buf id)
 
 /-- a new view (Slice / split): `rootBuf.Ref()` resp. `rootBuf.refs.Add(1) <= 1 → panic`, then a
     fresh struct with refs = 1 -/
@@ -114,7 +115,7 @@ def newView (st : St) (b off len : Nat) : Option (St × Nat) :=
       if r.refs = 0 then none else
       let id := st.objs.length
       let st1 := setObj st o.root { r with refs := r.refs + 1, kids := id :: r.kids }
-      some ({ st1 with objs := st1.objs ++ [⟨1, off, len, o.root, 0, 1, []⟩] }, id)
+      some ({ st1 with objs := st1.objs ++ [⟨1, off, len, o.root, 0, 1, [], 0⟩] }, id)
 
 /-- `b.Free()` -/
 def release (st : St) (i : Nat) : Option (St × List Ev) :=
@@ -124,22 +125,21 @@ def release (st : St) (i : Nat) : Option (St × List Ev) :=
     if o.refs = 0 then none           -- "Cannot free freed buffer"
     else if o.own = 0 then none       -- ghost discipline: freeing a reference nobody handed out
     else if o.refs > 1 then some (setObj st i { o with refs := o.refs - 1, own := o.own - 1 }, [])
+    else if o.root = i then
+      -- the root's last reference: pool.Put(origData)
+      let r := poolPut (setObj st i { o with refs := 0, own := o.own - 1, kids := [], puts := o.puts + 1 }) o.mem
+      some (r.1, [r.2])
     else
       let st1 := setObj st i { o with refs := 0, own := o.own - 1, kids := [] }
-      if o.root = i then
-        let r := poolPut st1 o.mem
-        some (r.1, [r.2])
-      else
-        match st1.objs[o.root]? with
-        | none => none
-        | some r =>
-          if r.refs = 0 then none
-          else if r.refs > 1 then
-            some (setObj st1 o.root { r with refs := r.refs - 1, kids := r.kids.erase i }, [])
-          else
-            let st2 := setObj st1 o.root { r with refs := 0, kids := [] }
-            let p := poolPut st2 r.mem
-            some (p.1, [p.2])
+      match st1.objs[o.root]? with
+      | none => none
+      | some r =>
+        if r.refs = 0 then none
+        else if r.refs > 1 then
+          some (setObj st1 o.root { r with refs := r.refs - 1, kids := r.kids.erase i }, [])
+        else
+          let p := poolPut (setObj st1 o.root { r with refs := 0, kids := [], puts := r.puts + 1 }) r.mem
+          some (p.1, [p.2])
 
 def narrow (st : St) (i off len : Nat) : St :=
   match st.objs[i]? with
@@ -349,5 +349,35 @@ def readAll (st : St) (r : Rd) : Option (St × Rd × Option Val × List Ev) :=
         | none => st1
       let nb := newBuffer st2 m bytes.length
       some (nb.1, r1, some nb.2, g.2.2 :: evs)
+
+/-! ## every history of operations, as a relation (used by the theorems)
+
+`Step st st'`: one exported operation (on arbitrary arguments) or pure bookkeeping (slots, readers,
+threshold: anything that leaves the heap of buffer structs alone) takes `st` to `st'`. The driver's
+`exec` is built from exactly these functions. -/
+inductive Step : St → St → Prop
+  | frame {st st' : St} : st'.objs = st.objs → Step st st'
+  | newbuf (st : St) (n : Nat) (c : Bytes) (k : Nat) : Step st (newBuffer (poolGet st n c).1 (poolGet st n c).2.1 k).1
+  | copy (st : St) (data : Bytes) : Step st (copyVal st data).1
+  | ref {st st' : St} {v : Val} : refVal st v = some st' → Step st st'
+  | free {st st' : St} {v : Val} {evs : List Ev} : freeVal st v = some (st', evs) → Step st st'
+  | slice {st st' : St} {v v' : Val} {s e : Nat} : sliceVal st v s e = some (st', v') → Step st st'
+  | split {st st' : St} {v l r : Val} {n : Nat} : splitVal st v n = some (st', l, r) → Step st st'
+  | read {st st' : St} {v rest : Val} {n : Nat} {b : Bytes} {evs : List Ev} :
+      readVal st v n = some (st', b, rest, evs) → Step st st'
+  | mattobuf {st st' : St} {vs : List Val} {v : Val} {evs : List Ev} : matToBuf st vs = some (st', v, evs) → Step st st'
+  | reader {st st' : St} {vs : List Val} : refAll st vs = some st' → Step st st'
+  | close {st st' : St} {vs : List Val} {evs : List Ev} : freeAll st vs = some (st', evs) → Step st st'
+  | rread {fuel : Nat} {st st' : St} {r r' : Rd} {n : Nat} {acc b : Bytes} {evs evs' : List Ev} :
+      rdRead fuel st r n acc evs = some (st', r', b, evs') → Step st st'
+  | rdiscard {fuel : Nat} {st st' : St} {r r' : Rd} {n n' : Nat} {evs evs' : List Ev} :
+      rdDiscard fuel st r n evs = some (st', r', n', evs') → Step st st'
+  | rbyte {st st' : St} {r r' : Rd} {b : Option UInt8} {evs : List Ev} : rdByte st r = some (st', r', b, evs) → Step st st'
+  | readall {st st' : St} {r r' : Rd} {v : Option Val} {evs : List Ev} : readAll st r = some (st', r', v, evs) → Step st st'
+
+/-- states reachable from the empty heap by any number of operations -/
+inductive Reach : St → Prop
+  | init : Reach {}
+  | step {st st' : St} : Reach st → Step st st' → Reach st'
 
 end GrpcModel.MemBuffer
